@@ -191,6 +191,8 @@ func (m *Encrypt0Message[T]) Decrypt(encryptor key.Encryptor, externalData []byt
 	if err != nil {
 		return err
 	}
+	var zero T
+	m.Payload = zero // a reused message must not keep the previous payload
 	if len(plaintext) > 0 {
 		switch any(m.Payload).(type) {
 		case []byte:
